@@ -27,4 +27,20 @@ def suites(tier):
     for cfg in product(kind=[0, 1, 2, 3, 4], cs=[0, 1], fwd=[0, 1], rep=[0]):
         cfg.update(norm=0, pos=0, slab=0, pk=0, scheme=0, nmin=0, nmax=nmax + 1, mmin=1, mmax=mmax, c16=0, c32=0)
         jobs.append(dict(id=jid("exact", cfg), func="zzH_C02_exact", cfg=cfg))
+    # non-ASCII runes (every class the code distinguishes), with and without normalisation
+    rn, rm = (2, 2) if tier == "quick" else (3, 2)
+    for cfg in product(algo=[1, 2], cs=[0], norm=[0, 1], fwd=[1], pos=[1]):
+        cfg.update(rep=2, slab=0, pk=1, scheme=0, nmin=1, nmax=rn, mmin=1, mmax=rm, c16=0, c32=0)
+        jobs.append(dict(id=jid("fuzzy-runes", cfg), func="zzH_C02_fuzzy", cfg=cfg))
+    for cfg in product(kind=[0, 1, 2, 3, 4], cs=[0], norm=[0, 1], fwd=[1]):
+        cfg.update(rep=2, pos=0, slab=0, pk=1, scheme=0, nmin=1, nmax=rn, mmin=1, mmax=rm, c16=0, c32=0)
+        jobs.append(dict(id=jid("exact-runes", cfg), func="zzH_C02_exact", cfg=cfg))
+    # longer patterns over a tiny alphabet (self-overlapping patterns, restarts of the naive scan)
+    tn, tm = (5, 3) if tier == "quick" else (6, 4)
+    for cfg in product(kind=[0, 1], cs=[0, 1], fwd=[0, 1]):
+        cfg.update(rep=3, norm=0, pos=0, slab=0, pk=2, scheme=0, nmin=tm, nmax=tn, mmin=tm, mmax=tm, c16=0, c32=0)
+        jobs.append(dict(id=jid("exact-tiny", cfg), func="zzH_C02_exact", cfg=cfg))
+    for cfg in product(algo=[1] if tier == "quick" else [1, 2], cs=[0], fwd=[0, 1], pos=[1]):
+        cfg.update(rep=3, norm=0, slab=0, pk=2, scheme=0, nmin=tn - 1, nmax=tn, mmin=2, mmax=tm, c16=0, c32=0)
+        jobs.append(dict(id=jid("fuzzy-tiny", cfg), func="zzH_C02_fuzzy", cfg=cfg))
     return [dict(ALGO, name="algo", jobs=jobs)]
